@@ -85,6 +85,16 @@ pub enum CacheCase {
     },
 }
 
+/// well-formed u32 counters only (so that the whole file still parses)
+fn counter_valid() -> BoxedStrategy<String> {
+    const C: &[&str] = &["0", "1", "2", "5", "2147483647", "2147483648", "4294967294", "4294967295"];
+    prop_oneof![
+        8 => (0..C.len()).prop_map(|i| C[i].to_string()),
+        2 => any::<u32>().prop_map(|v| v.to_string()),
+    ]
+    .boxed()
+}
+
 fn counter() -> BoxedStrategy<String> {
     const C: &[&str] = &[
         "0", "1", "2", "5", "2147483647", "2147483648", "4294967294", "4294967295", "4294967296",
@@ -124,15 +134,24 @@ fn addr_text(peer: u8, port: u16, proto: u8, with_p2p: bool) -> String {
     }
 }
 
-fn synth_peer() -> BoxedStrategy<SynthPeer> {
-    let addr = (0u8..4, prop_oneof![Just(0u16), Just(65535), 1u16..2000], 0u8..3, 0u8..10).prop_map(|(p, port, proto, odd)| match odd {
+fn synth_peer(strict: bool) -> BoxedStrategy<SynthPeer> {
+    let (cnt, sec, nan) = if strict {
+        (
+            counter_valid(),
+            prop_oneof![6 => Just("1700000000".to_string()), 1 => Just("0".to_string()), 1 => Just("4102444800".to_string())].boxed(),
+            prop_oneof![3 => Just("0".to_string()), 1 => Just("999999999".to_string())].boxed(),
+        )
+    } else {
+        (counter(), secs(), nanos())
+    };
+    let addr = (0u8..4, prop_oneof![Just(0u16), Just(65535), 1u16..2000], 0u8..3, 0u8..10).prop_map(move |(p, port, proto, odd)| match if strict && (1..=3).contains(&odd) { 9 } else { odd } {
         0 => addr_text(p, port, proto, false),
         1 => String::new(),
         2 => "/dns/example.com/udp/1/quic-v1".to_string(),
         3 => format!("/ip4/10.0.0.1/udp/{}/quic-v1", port as u32 + 65000),
         _ => addr_text(p, port, proto, true),
     });
-    let a = (addr, counter(), counter(), secs(), nanos()).prop_map(|(addr, success, failure, secs, nanos)| SynthAddr {
+    let a = (addr, cnt.clone(), cnt, sec, nan).prop_map(|(addr, success, failure, secs, nanos)| SynthAddr {
         addr,
         success,
         failure,
@@ -140,7 +159,11 @@ fn synth_peer() -> BoxedStrategy<SynthPeer> {
         nanos,
     });
     (
-        prop_oneof![8 => (0u8..4).prop_map(|i| peer_id(i).to_string()), 1 => Just(String::new()), 1 => Just("12D3KooW".to_string())],
+        if strict {
+            (0u8..4).prop_map(|i| peer_id(i).to_string()).boxed()
+        } else {
+            prop_oneof![8 => (0u8..4).prop_map(|i| peer_id(i).to_string()), 1 => Just(String::new()), 1 => Just("12D3KooW".to_string())].boxed()
+        },
         proptest::collection::vec(a, 0..9),
     )
         .prop_map(|(key, addrs)| SynthPeer { key, addrs })
@@ -163,7 +186,10 @@ pub fn strategy() -> BoxedStrategy<CacheCase> {
     )
         .prop_map(|(b, cfg)| CacheCase::Bytes { content: Raw::of(&b), cfg });
     let synth = (
-        proptest::collection::vec(synth_peer(), 0..4),
+        prop_oneof![
+            3 => proptest::collection::vec(synth_peer(true), 0..4),
+            2 => proptest::collection::vec(synth_peer(false), 0..4),
+        ],
         secs(),
         prop_oneof![Just(String::new()), Just("1_1.0".to_string()), re("\\PC{0,6}")],
         proptest::option::weighted(0.15, any::<u16>()),
